@@ -1,4 +1,5 @@
 import Rustic.Model.Codec
+import Rustic.Model.WriteSites
 import Driver.Util
 /- Driver channel `c04` — see harness/src/c04.rs for the op-line grammar and the observation formats. -/
 namespace Driver.C04
@@ -152,7 +153,16 @@ def handle : List String → String
     | some d => blobObs (z = "z") d
     | none => "bad-op"
   | ["keys", script] => keysObs script
+  | ["initpw", p, qs] =>
+    -- `init` with a password writes one key file for exactly that password (`commands/init.rs` -> `add_key_to_repo`)
+    match p.toNat?, (qs.splitOn ",").mapM (·.toNat?) with
+    | some p, some qs =>
+      let st : KeyState := { good := [some (.good 0 p 0)] }
+      "ok " ++ ",".intercalate (qs.map fun q => keyResStr st (findKey st.listing q))
+    | _, _ => "bad-op"
   | ["scan", seed] => if seed.toNat?.isSome then "ok" else "bad-op"
+  | ["sites"] => "ok " ++ Rustic.WriteSites.render
+  | ["hist", seed] => if seed.toNat?.isSome then "ok" else "bad-op"
   | ["tamper", seed] => if seed.toNat?.isSome then "ok" else "bad-op"
   | ["swap", "snapshot", seed] => if seed.toNat?.isSome then "undetected" else "bad-op"
   | _ => "bad-op"
